@@ -4,7 +4,7 @@ LEVEL = 'exploration'
 RULE = ('generated well-formed stub configurations (optional default first, then 0-6 When / In clauses whose arguments are plain values, arg.Any, arg.In; clauses overlap on purpose) '
         'on 14 targets (fixed 1-5 params of int/uint8/float/string/bool/struct/pointer/interface, variadics with 0-3 leading fixed params, pointer/value-receiver methods); '
         'every configuration is exercised by real calls aimed at each clause, at overlaps and at nothing; the outcome is compared with a reference interpreter of the documented rule '
-        '(first registered matching clause, else default, else a "no suitable condition" panic); distinct = (signature class, clause-kind multiset, outcome kind) triples')
+        '(first registered matching clause, else default, else a "no suitable condition" panic); plus a sweep of calls whose pointer argument points into the caller frame (compared by pointee) at every stack depth; distinct = (signature class, clause-kind multiset, outcome kind) triples')
 
 
 def run(ctx):
@@ -13,4 +13,7 @@ def run(ctx):
     files.update(core.dir_files('harness/c04', 'zzverif/c04'))
     b = ctx.build('c04', core.MODPATH + '/zzverif/c04', files)
     nconf, ncalls, shards = ('250', '12', 16) if not ctx.thorough else ('4000', '20', 32)
-    ctx.children(b, shards, run='TestC04', env={'VERIF_C04_CONFIGS': nconf, 'VERIF_C04_CALLS': ncalls}, timeout=1800)
+    ctx.children(b, shards, run='TestC04$', env={'VERIF_C04_CONFIGS': nconf, 'VERIF_C04_CALLS': ncalls}, timeout=1800)
+    # pointers into the caller's frame compared by pointee, at every stack depth, 32 goroutines at a time
+    ch = ctx.child(b, run='TestC04StackArgs$', timeout=600, env={'VERIF_C04_STACKROUNDS': '100' if not ctx.thorough else '1500'})
+    ctx.absorb(ch, what='TestC04StackArgs')
